@@ -1,4 +1,5 @@
 import BlugeProofs.C07.Witness
+import BlugeProofs.C07.PlanSeg
 /-! # C07 — every query returns exactly the documents its meaning selects
 
 Property theorems (helper lemmas live in `BlugeProofs/C07/*.lean`). The model is `Bluge.Search`
@@ -15,6 +16,46 @@ open Bluge.Search
 /-- the leaf searchers (`TermSearcher` over a postings iterator incl. its restart on a backward
 `Advance`, the unadorned iterator, `MatchAllSearcher`, `MatchNoneSearcher`) are sorted-list iterators -/
 theorem leaf_is_iter (L : List Nat) : IsIter Leaf.step (LeafRel L) L := leaf_is_iter_aux L
+
+/-- **postings_is_iter**: the multi-segment iterators of /repo/index — `postingsIterator.Next/Advance`
+(the fall-through of `Next` over exhausted segments, the jump of `Advance` to the segment found by
+`segmentIndexAndLocalDocNumFromGlobal` = `sort.Search` over the offsets, the fall-through to `Next()` when
+that segment has nothing left, the RESTART on a backward seek as the code does it now: the iterator's
+contents are replaced by those of a fresh `Snapshot.PostingsIterator(term, field)`), `postingsIteratorAll`
+(no restart, `AdvanceIfNeeded` + `Next`) and, inside them, the unadorned bitmap / 1-hit per-segment
+iterators — satisfy the SAME contract `IsIter` as the abstract leaf of `leaf_is_iter`, for every list `L`
+they are related to by `PRel` (`PRel L s .fresh`: `L` = the global numbers `n + off_i` of the per-segment
+lists, offsets non-decreasing, every number of a segment below the next offset). -/
+theorem postings_is_iter (L : List Nat) : IsIter PIter.step (PRel L) L := postings_is_iter_aux L
+
+/-- **postings_exact**: `Snapshot.PostingsIterator(term, field)` over segments given by their offset,
+size, sorted local postings and deleted set (`termOK`: offsets are the running sums of the sizes from 0,
+postings strictly increasing and below the size — the decidable predicate the driver evaluates on the
+real offsets / sizes of every reader, `bad:assumption-offsets`) starts `fresh` for exactly
+`{offset_i + n | n ∈ postings_i, n ∉ deleted_i}`, which is strictly increasing; a collector draining it
+obtains exactly that list. -/
+theorem postings_exact (sd : List SegData) (h : termOK 0 sd = true) :
+    PRel (liveGlobals sd) (PIter.ofTerm sd) .fresh ∧
+    (liveGlobals sd).Pairwise (· < ·) ∧
+    (∀ x, x ∈ liveGlobals sd ↔ ∃ e ∈ sd, ∃ n ∈ e.raw, ¬ n ∈ e.deleted ∧ x = e.off + n) ∧
+    (∀ k, (liveGlobals sd).length < k → drain PIter.step k (PIter.ofTerm sd) = liveGlobals sd) :=
+  ⟨(ofTerm_fresh h).1, (ofTerm_fresh h).2, fun _ => mem_liveGlobals,
+   fun k hk => drain_fresh (postings_is_iter_aux _) (ofTerm_fresh h).2 k _ (ofTerm_fresh h).1 hk⟩
+
+/-- `sort.Search` as transcribed (`goSearch`) returns, for a predicate that is monotone below `n`, the
+first index at which it holds (or `n`) -/
+theorem sortSearch_spec (f : Nat → Bool) (n : Nat) (hmono : ∀ a b, a ≤ b → b < n → f a = true → f b = true) :
+    goSearch n f ≤ n ∧ (∀ x, x < goSearch n f → f x = false) ∧ (goSearch n f < n → f (goSearch n f) = true) :=
+  goSearch_spec f n hmono
+
+/-- `segmentIndexAndLocalDocNumFromGlobal` never indexes `offsets[-1]` (a Go panic) on a snapshot that has
+a segment and whose first offset is 0; on a snapshot WITHOUT segments `Advance` does (`decide` witness:
+unreachable through `Reader.Search`, no doc number exists that a parent could advance to). -/
+theorem segIndex_isSome {segs : List PSeg} {g : PSeg} {t : List PSeg} (hs : segs = g :: t) (h0 : g.off = 0) (n : Nat) :
+    (segIndexOf (segs.map (·.off)) n).isSome = true := segIndexOf_isSome hs h0 n
+
+example : (PIter.mk' [] .postings []).advPanics 0 = true := by decide
+example : (PIter.mk' [(0, 3), (3, 2)] .postings [1, 4]).advPanics 4 = false := by decide
 
 /-- `ConjunctionSearcher` (leap-frog) over children that are iterators for the lists `Ls` is an
 iterator for their intersection `L`, for every fuel ≥ `B·(2·|Ls|+2)+|Ls|+2` (B bounds the doc numbers) -/
@@ -62,10 +103,13 @@ theorem phrase_is_iter {ι : Type} {cs : Step ι} {RelK : List Nat → ι → Ph
     IsIter (PhraseS.step cs fuel) (PhraseRel RelK B Lk ok) L :=
   phrase_is_iter_aux hK hL fuel hfuel
 
-/-- searcher trees of ANY depth (`NodeD d`, any `d`): every node related to a list `L` by `RelD` is an
-iterator for `L` (induction on the depth over the six composites above) -/
-theorem tree_is_iter (fuel d : Nat) (L : List Nat) : IsIter (stepD fuel d) (RelD fuel d L) L :=
-  relD_is_iter fuel d L
+/-- searcher trees of ANY depth (`NodeD Λ d`, any `d`) over ANY leaf searchers that are iterators
+(`leaf_is_iter`: the abstract leaf; `postings_is_iter`: the per-segment postings iterators): every node
+related to a list `L` by `RelD` is an iterator for `L` (induction on the depth over the six composites above) -/
+theorem tree_is_iter {Λ : Type} {ls : Step Λ} {LRel : List Nat → Λ → Phase → Prop}
+    (hleaf : ∀ L, IsIter ls (LRel L) L) (fuel d : Nat) (L : List Nat) :
+    IsIter (stepD ls fuel d) (RelD LRel fuel d L) L :=
+  relD_is_iter hleaf fuel d L
 
 /-- a collector draining an iterator from its fresh state obtains exactly `L`, in order -/
 theorem drain_exact {σ : Type} {step : Step σ} {Rel : σ → Phase → Prop} {L : List Nat} (h : IsIter step Rel L)
@@ -81,6 +125,17 @@ and is exactly the plan's set expression. -/
 theorem plan_exact {B W : Nat} (p : Plan) (h : p.okB B W = true) :
     p.run B W = p.den B ∧ (p.run B W).Pairwise (· < ·) :=
   plan_exact_aux p h
+
+/-- **plan_exact_seg**: `plan_exact` with every leaf instantiated by the MULTI-SEGMENT machine
+(`Plan.runSeg sn`: leaves are `PIter.mk' sn`, i.e. `postingsIterator` / `postingsIteratorAll` over the
+snapshot layout `sn` = the list of (offset, size) of the segments) instead of the abstract sorted list:
+for every layout whose offsets are the running sums of the sizes (`offsetsOK`, evaluated by the driver on
+the real offsets of every reader) and every plan that passes `okB` for the snapshot's total, the
+`Next` answers of the built searcher tree are strictly increasing and exactly the plan's set expression. -/
+theorem plan_exact_seg {sn : SnapLayout} (hsn : offsetsOK 0 sn = true) {W : Nat} (p : Plan)
+    (h : p.okB sn.total W = true) :
+    p.runSeg sn W = p.den sn.total ∧ (p.runSeg sn W).Pairwise (· < ·) :=
+  plan_exact_seg_aux hsn p h
 
 /-- the plan `Query.Searcher()` builds denotes the documented meaning of the query (term, match-all/none,
 multi-term expansions over the dictionary, numeric/date ranges, (multi-)phrases with slop, geo as a filter,
@@ -113,6 +168,22 @@ theorem C07_exact_partial {idx : Index} {B W : Nat} (hwf : idx.WF B) (q : Query)
   rw [h1.1, h2]
   exact mem_denote
 
+/-- **C07_exact_seg_partial**: `C07_exact_partial` for searcher trees whose leaves are the multi-segment
+postings iterators of the snapshot the index lives in: for every snapshot layout with well-formed
+offsets, every index whose doc numbers are below the snapshot's total, every well-formed query of any
+depth and width whose plan passes `okB`, the modelled searchers — composites over `postingsIterator` /
+`postingsIteratorAll` machines — return exactly `denote idx q`. -/
+theorem C07_exact_seg_partial {sn : SnapLayout} (hsn : offsetsOK 0 sn = true) {idx : Index} {W : Nat}
+    (hwf : idx.WF sn.total) (q : Query) (hq : q.WF = true) (hok : (compile idx q).okB sn.total W = true) :
+    (compile idx q).runSeg sn W = denote idx q ∧ ((compile idx q).runSeg sn W).Pairwise (· < ·) ∧
+    (∀ x, x ∈ (compile idx q).runSeg sn W ↔ ∃ d, (x, d) ∈ idx ∧ sat d q = true) := by
+  have h1 := plan_exact_seg_aux hsn (compile idx q) hok
+  have h2 := compile_den hwf q hq
+  refine ⟨h1.1.trans h2, h1.2, ?_⟩
+  intro x
+  rw [h1.1, h2]
+  exact mem_denote
+
 /-! ## Witnesses: where the implementation (as modelled) deviates from the documented meaning
 (definitions and evaluation in BlugeProofs/C07/Witness.lean) -/
 
@@ -123,15 +194,15 @@ rewrite replaces the should disjunction by ONE TermSearcher (`Min() = 0`); the r
 returns the must-only document 0, which the meaning (and the scored searcher tree) excludes. -/
 theorem minshould_lost_witness :
     (q.rewriteNone ⟨false⟩ 4).1 = qNone ∧
-    drain (stepD (fuelFor 4 2) 2) 5 (qNone.build 2) = [0, 1, 2] ∧
-    drain (stepD (fuelFor 4 2) 2) 5 (q.build 2) = [1, 2] ∧
+    drain (stepD Leaf.step (fuelFor 4 2) 2) 5 (qNone.build Leaf.mk' 2) = [0, 1, 2] ∧
+    drain (stepD Leaf.step (fuelFor 4 2) 2) 5 (q.build Leaf.mk' 2) = [1, 2] ∧
     q.den 4 = [1, 2] := minshould_lost_aux
 
 open Witness in
 /-- the same rewrite with `Min()` preserved (`ScoreNone.keepMin`, the proposed repair) is exact here -/
 theorem minshould_kept_witness :
     (q.rewriteNone ⟨true⟩ 4).1 = qNoneKept ∧ (q.rewriteNone ⟨true⟩ 4).2 = 0 ∧
-    drain (stepD (fuelFor 4 2) 2) 5 (qNoneKept.build 2) = [1, 2] := minshould_kept_aux
+    drain (stepD Leaf.step (fuelFor 4 2) 2) 5 (qNoneKept.build Leaf.mk' 2) = [1, 2] := minshould_kept_aux
 
 /-- **fuzziness_0_panics_witness**: `NewFuzzySearcher` with fuzziness 0 indexes `automatons[0]` of an
 empty slice (fuzziness 1, 2 construct a searcher; 3 and negative values are errors) -/
@@ -153,7 +224,7 @@ no document can satisfy one of zero should queries — is ignored: the searcher 
 theorem minshould_without_should_witness :
     denote idx1 q2 = [] ∧
     compile idx1 q2 = .bool (some (.conj [.leaf .postings [0]])) none none 0 ∧
-    drain (stepD (fuelFor 1 1) 2) 2 ((Plan.bool (some (.conj [.leaf .postings [0]])) none none 0).build 2) = [0] :=
+    drain (stepD Leaf.step (fuelFor 1 1) 2) 2 ((Plan.bool (some (.conj [.leaf .postings [0]])) none none 0).build Leaf.mk' 2) = [0] :=
   minshould_without_should_aux
 
 /-! ## Non-vacuity: the hypotheses of the theorems are satisfiable -/
@@ -162,6 +233,8 @@ open Witness in
 example : q.okB 4 2 = true := witness_q_ok
 open Witness in
 example : Index.WF idx1 1 := witness_idx_wf
+example : offsetsOK 0 [(0, 3), (3, 2), (5, 4)] = true := by decide
+example : termOK 0 [⟨0, 3, [0, 2], [2]⟩, ⟨3, 2, [1], []⟩] = true := by decide
 example : (Query.bool [.term "t" "x"] [.phrase "t" 1 [["y"], ["z", "w"]], .term "t" "z"] [.term "t" "w"] 1).WF = true :=
   witness_query_wf
 
